@@ -185,6 +185,7 @@ func runPath(ld *loaded, s *Solver, c *Config, req Request) (res *PathResult) {
 		maxSteps: c.MaxSteps, maxEnum: c.MaxEnum, unwind: c.Unwind, noMerge: c.NoMerge, clock: bv(0, 64), wantWitness: req.Witness, dumpDir: c.DumpDir, dumpMax: 3}
 	curSolver = s
 	q0, d0 := s.queries, s.dur
+	u0, s0 := s.nUnsat, s.nSat
 	s.push()
 	func() {
 		defer func() {
@@ -226,6 +227,7 @@ func runPath(ld *loaded, s *Solver, c *Config, req Request) (res *PathResult) {
 	s.pop()
 	res.Siblings = e.sibs
 	res.Queries = s.queries - q0
+	res.QUnsat, res.QSat = s.nUnsat-u0, s.nSat-s0
 	res.SolverMs = (s.dur - d0).Milliseconds()
 	res.Steps = e.steps
 	res.Merged = e.merged
@@ -276,6 +278,9 @@ type Summary struct {
 	PerHarness   map[string]*HStat   `json:"per_harness"`
 	Samples      []Obligation        `json:"samples"`
 	Witnesses    []Witness           `json:"witnesses"`
+	QUnsat       int                 `json:"queries_unsat"`
+	QSat         int                 `json:"queries_sat"`
+	PathSamples  []map[string]any    `json:"path_samples"`
 	Labels       map[string]LabelSum `json:"labels"`
 	Config       map[string]any      `json:"config"`
 }
